@@ -686,9 +686,13 @@ ACCEPTS_ENTRIES = ['lark.parsers.lalr_interactive_parser:InteractiveParser.accep
 def run_accepts_pure(ctx: Ctx) -> RuleResult:
     """R-ACCEPTS-PURE [C08 C13]: accepts()/choices() are functions of the current parser state only: no write
     reachable from them outlives the call (no memo keyed by less than the whole stack)."""
-    return _run_effects(ctx, 'R-ACCEPTS-PURE',
-                        'accepts()/choices() write nothing that outlives the call (their result depends on the whole stack, '
-                        'so it cannot be cached per state)', [q for q in ACCEPTS_ENTRIES if ctx.repo.has_func(q)], full=False)
+    res = _run_effects(ctx, 'R-ACCEPTS-PURE',
+                       'accepts()/choices() write nothing that outlives the call (their result depends on the whole stack, '
+                       'so it cannot be cached per state); a terminal is recorded only when its trial feed succeeded',
+                       [q for q in ACCEPTS_ENTRIES if ctx.repo.has_func(q)], full=False)
+    from .fork import accepts_on_success
+    accepts_on_success(ctx, res)
+    return res
 
 
 def _run_effects(ctx: Ctx, rule_id: str, description: str, entries: List[str], full: bool) -> RuleResult:
